@@ -74,6 +74,17 @@ def fn_ob(prop: str, c: vc.Contract, callees: Dict[str, vc.Contract] = None, cal
                                   "(contradictory requires / assumed contracts?)", fr.seconds)
         bad = [n for n in names if fr.obligations[n]["status"] == "refuted"]
         und = [n for n in names if fr.obligations[n]["status"] == "undecided"]
+        inv_bad = [n for n in names if (".invariant-init" in n or ".invariant-preserved" in n) and fr.obligations[n]["status"] != "discharged"]
+        if inv_bad:
+            # a sidecar invariant that is not inductive for the CURRENT text means the loop cut is not justified: nothing that was derived after the cut (in
+            # particular a 'refuted' postcondition) says anything about the code.  This is a failed proof, not a counterexample: the bounded oracle of the same
+            # contract decides, and only an input it reproduces natively becomes a violation.
+            rep_out = _candidate_replay(fr, names)
+            if rep_out is not None:
+                return rep_out
+            d0 = fr.obligations[inv_bad[0]]
+            return core.undecided("engine-V", f"the sidecar loop invariant is not inductive for the current text ({inv_bad[0]}: {d0['status']}; "
+                                  f"counter-model {json.dumps(d0.get('model'), default=str)[:200]}): loop cut not justified, no verdict from the VCs", fr.seconds)
         if bad:
             n0 = bad[0]
             d = fr.obligations[n0]
